@@ -1,6 +1,6 @@
 """C02 — each editing call has exactly its documented effect. Direct oracle: the independent list-of-lists
 reference with anchor semantics (treeimpl.RefForest), compared after every step; correspondence as C01."""
-import c01
+from props import c01
 
 RULE = c01.RULE + (" Multi-argument forms weighted up (40% of calls carry 2-3 arguments drawn from fresh strings, "
                    "fresh tags, earlier/later siblings, elements of other trees, whole BeautifulSoup objects).")
